@@ -10,6 +10,7 @@
     cmpt TID1 TID2 CID FUEL      two TEAL programs compared (with slots) → agree CLS | differ … | skip
 -/
 import PyTealV
+import PyTealV.Cmd
 open PyTealV PyTealV.Avm
 
 structure DState where
@@ -90,6 +91,10 @@ def handle (st : DState) (line : String) : DState × String :=
       | some false => (st, "differ " ++ Compare.showOutcome true a ++ " ## " ++ Compare.showOutcome true b)
       | none => (st, "skip " ++ Compare.clsName (Compare.cls a) ++ "/" ++ Compare.clsName (Compare.cls b))
     | _, _, _, _ => (st, "perr unknown id")
+  | cmd :: args =>
+    match Cmd.dispatch cmd args with
+    | some ans => (st, ans)
+    | none => (st, "perr unknown command")
   | _ => (st, "perr unknown command")
 
 partial def loop (h : IO.FS.Stream) (out : IO.FS.Stream) (st : DState) : IO Unit := do
